@@ -1,7 +1,7 @@
 import Qv.Driver.Json
 import Qv.Model.Brute
 /-! Driver handlers for C09 (brute-force solvers).  Trusted glue: JSON in / out only. -/
-namespace Qv.Drv
+namespace Qv.Drv.C09
 open Lean Qv Qv.Brute
 
 def pairsOfJson (j : Json) : Except String Assign := do
@@ -83,4 +83,4 @@ def handleBrute (j : Json) : Except String Json := do
 
 def handlersC09 : List (String × (Lean.Json → Except String Lean.Json)) :=
   [("brute", handleBrute)]
-end Qv.Drv
+end Qv.Drv.C09
